@@ -355,6 +355,14 @@ def run(c, prog, ctx):
         if r[0] != "ret" or ok_exp != (r[1] == "std::result::Result::Ok{taproot::LeafVersion::LeafVersion{arg1}}"):
             bad.append((v, r))
     c.inst("R5.leaf-version", "leaf versions accepted: even and not 0x50, over all 256 bytes", not bad, "deviations %s" % bad[:4], LV.f.where(), LV.f.path)
+    # leaves added without an explicit version (add_leaf, with_huffman_tree) are tapscript leaves: Default = 0xc4, and the named
+    # constants are that byte (a derived Default would be version 0, self-consistent inside the library and wrong against Elements)
+    fdv = prog.fn("<taproot::LeafVersion as std::default::Default>::default")
+    dv = sh(Prov(fdv.body).local(0))
+    cv = [(prog.consts.get(k) or {}).get("val") for k in ("taproot::TAPROOT_LEAF_TAPSCRIPT", "taproot::LeafVersion::TAPSCRIPT")]
+    c.inst("R5.leaf-version-default", "LeafVersion::default() = TAPSCRIPT = 0xc4",
+           dv in ("taproot::LeafVersion::LeafVersion{196}", "taproot::LeafVersion::TAPSCRIPT", "taproot::LeafVersion::LeafVersion{taproot::TAPROOT_LEAF_TAPSCRIPT}")
+           and cv == ["196_u8", "taproot::LeafVersion(196_u8)"], "default() returns %s; constants %s" % (dv, cv), fdv.where(), fdv.path)
     for nm, want in (("TAPROOT_LEAF_MASK", "254_u8"), ("TAPROOT_LEAF_TAPSCRIPT", "196_u8"), ("TAPROOT_CONTROL_BASE_SIZE", "33_usize"), ("TAPROOT_CONTROL_NODE_SIZE", "32_usize"),
                      ("TAPROOT_CONTROL_MAX_NODE_COUNT", "128_usize"), ("TAPROOT_CONTROL_MAX_SIZE", "4129_usize")):
         v = (prog.consts.get(T + nm) or {}).get("val")
